@@ -331,6 +331,15 @@ def check_log(be, log, s, prop):
                 beyond = z3.ULT(ze, m) if kind == "min" else z3.UGT(ze, m)
             fails.append(Fail(kind, f"step {i}: {kind}(signed={signed}) = {r!r:.40} is not the true optimum (solver {sid})",
                               z3.And(z3.Not(constok), z3.Or(z3.Not(ex(z3.And(F, ze == m))), ex(z3.And(F, beyond)))), known_key=kind, classify=_on_unsat(ex(F))))
+            if z3.is_bv(ze) and isinstance(r, int) and not isinstance(r, bool):
+                # the answer is the value in the requested reading: signed queries give -2^(n-1) .. 2^(n-1)-1, unsigned ones 0 .. 2^n-1
+                from pysym import engine as E
+
+                n_ = ze.size()
+                rt = E.term(r)
+                lo, hi = (-(1 << (n_ - 1)), (1 << (n_ - 1)) - 1) if signed else (0, (1 << n_) - 1)
+                fails.append(Fail(kind + "-reading", f"step {i}: {kind}(signed={signed}) = {r!r:.40} is outside the {'signed' if signed else 'unsigned'} range of {n_} bits (solver {sid})",
+                                  z3.And(z3.Not(isconst), ex(F), z3.Or(rt < lo, rt > hi)), known_key=kind + "-reading"))
         elif kind == "solution":
             _, _, sid, r, F, ze, zv = rec
             want = ex(z3.And(F, ze == zv))
@@ -684,6 +693,8 @@ def _replay_real_z3(case):
                     want = (min if op == "min" else max)(vs, key=key)
                     if (r & ((1 << w) - 1)) != want:
                         return {"violated": True, "detail": f"step {i}: {op}(signed={st[3]}) = {r}, true optimum {want} (values {sorted(set(vs))[:8]}); {desc}"}
+                    if not (-(1 << (w - 1)) <= r < (1 << (w - 1)) if st[3] else 0 <= r < (1 << w)):
+                        return {"violated": True, "detail": f"step {i}: {op}(signed={st[3]}) = {r} is outside the {'signed' if st[3] else 'unsigned'} range of {w} bits; {desc}"}
                 elif op == "solution":
                     e = EXPRS[st[2]][0](claripy, V, K)
                     ms = models(R[sid] + A(st[4]))
